@@ -199,11 +199,15 @@ func cooldownProtocol(c *Ctx) {
 				call := in.(*ssa.Call)
 				if call.Call.StaticCallee() == nil && !call.Call.IsInvoke() && len(call.Call.Args) == 1 {
 					if ld, isL := isLoad(call.Call.Args[0]); isL && an.FieldOfAddr(ld.X) == "CleanerConfig.Cooldown" {
-						okc = true
+						// ... of the configuration current at THIS pass: Buffer.cleaner is re-read inside the predicate
+						// (SetCleanerConfig replaces the pointer; a copy taken once would pin the first cooldown for ever)
+						if fa, isFA := ld.X.(*ssa.FieldAddr); isFA && an.IsLoadOfField(fa.X, "Buffer.cleaner") {
+							okc = true
+						}
 					}
 				}
 			}
-			pq.add("PROV", "the cooldown is the configured one", okc, "cleanup(b.cleaner.Cooldown)")
+			pq.add("PROV", "the cooldown is the configured one", okc, pickS(okc, "cleanup(b.cleaner.Cooldown), Buffer.cleaner re-read on every pass", "the cooldown handed to cleanup() is not read from the current Buffer.cleaner on every pass: a later SetCleanerConfig would never take effect for the cleaner goroutine"))
 		}
 	}
 }
